@@ -41,6 +41,17 @@ CLAIMED['C13'] = (
     'non-negative). Handler bodies that consume the tuple are covered by a lemma over the contract only.',
     'contract-based deductive verification (AST->VC generator, z3 + cvc5), native replay by source extraction')
 
+CLAIMED['C19'] = (
+    'DESIGN.md 4 C19',
+    'Proof (all non-negative reals / all timedeltas): the text toIsoDuration builds denotes the input within half a '
+    'millisecond with seconds and minutes fields below 60 (rounding carries); exact floor characterisations of '
+    'timecode_to_timedelta, timedelta_to_timecode, multiply_timedelta, scale_timedelta; lemmas: round trip within one tick '
+    '(timescale <= 10^6), microsecond loss below one tick, monotonicity. Bounded (labelled, not counted): date-time text '
+    'round trip over all microsecond values, float-vs-real grids.',
+    'Trusted: pyvc encoding; floats treated as exact reals in the proof (gap covered only by the bounded grid); formatting '
+    'model pyvc/models/text.py. Known finding: round trip loses more than a tick above 1 MHz.',
+    'contract-based deductive verification (AST->VC generator, z3 + cvc5) + bounded native enumeration for the regex/float text part')
+
 NOT_APPLICABLE = {
     'C05': 'XML documents come out of Jinja templates rendered by an external engine; no function contract reaches them and the app cannot be instantiated offline (flask_login missing).',
     'C07': 'Identity of string transducers (quote_plus, regex date parsing, split) over a registry built with getattr; SMT string solvers leave these undecided; a proof over only int/bool options would not decide the property.',
